@@ -20,6 +20,7 @@ package main
 
 import (
 	"fmt"
+	"strings"
 
 	"github.com/zclconf/go-cty/cty"
 )
@@ -307,5 +308,219 @@ func d19ProbeOracle(ctx *Ctx, v cty.Value) {
 			_, e := it.Element()
 			d19ProbeOracle(ctx, e)
 		}
+	}
+}
+
+// ---- paths built with the public builders from shared bases ------------------------------------
+//
+// Every other scenario builds each path as an independent chain (or takes Path.Copy of what
+// Walk reports).  Here the path of every member is built by extending the PARENT's path VALUE
+// with Path.GetAttr / Index / IndexInt / IndexString — all siblings from the one base value, the
+// bases themselves grown by the builders, lengths 0 … 8 and more — and by a Walk callback that
+// extends the path it is handed; all built paths are kept, and only afterwards judged: each must
+// still lead to its own member (walk-lead-back), be Equals to itself only, be one member of a
+// PathSet of them all, and carry its member's marks back (unmark-remark).  The builder calls are
+// also a correspondence case (`path.build`: the model's builders are pure).
+
+type d19Built struct {
+	p       cty.Path // built with the public builders, from the parent's path value
+	ind     cty.Path // the same steps in a slice of its own
+	v       cty.Value
+	anc     cty.ValueMarks // marks of the containers on the way
+	setStep bool
+	reg     int
+}
+
+func d19Wrap(ctx *Ctx, v cty.Value, n int) cty.Value {
+	for i := 0; i < n; i++ {
+		switch k := ctx.R.Intn(4); {
+		case k == 0:
+			v = cty.ObjectVal(map[string]cty.Value{"w": v, "z": cty.True})
+		case k == 1:
+			v = cty.TupleVal([]cty.Value{v, cty.StringVal("t")})
+		case k == 2 && v.Type() != cty.DynamicPseudoType:
+			v = cty.MapVal(map[string]cty.Value{"k": v})
+		case k == 3 && v.Type() != cty.DynamicPseudoType:
+			v = cty.ListVal([]cty.Value{v})
+		default:
+			v = cty.ObjectVal(map[string]cty.Value{"w": v})
+		}
+		if ctx.R.Intn(6) == 0 {
+			v = v.Mark(markNames[ctx.R.Intn(len(markNames))])
+		}
+	}
+	return v
+}
+
+// d19Extend: base extended by one step through a public builder (chosen at random among
+// those that can express the step); instr is the correspondence instruction.
+func d19Extend(ctx *Ctx, base cty.Path, src int, s cty.PathStep) (cty.Path, string) {
+	switch s := s.(type) {
+	case cty.GetAttrStep:
+		return base.GetAttr(s.Name), fmt.Sprintf("(ga %d %s)", src, encStr(s.Name))
+	case cty.IndexStep:
+		k := s.Key
+		if k.Type() == cty.Number && k.IsKnown() && !k.IsNull() && !k.IsMarked() && ctx.R.Intn(2) == 0 {
+			if i, acc := k.AsBigFloat().Int64(); acc == 0 && i >= 0 && i < 1<<30 {
+				return base.IndexInt(int(i)), fmt.Sprintf("(ixi %d %d)", src, i)
+			}
+		}
+		if k.Type() == cty.String && k.IsKnown() && !k.IsNull() && !k.IsMarked() && ctx.R.Intn(2) == 0 {
+			return base.IndexString(k.AsString()), fmt.Sprintf("(ixs %d %s)", src, encStr(k.AsString()))
+		}
+		return base.Index(k), fmt.Sprintf("(ix %d %s)", src, encVal(k))
+	}
+	return base, "(bad)"
+}
+
+func d19Own(p cty.Path, s cty.PathStep) cty.Path {
+	q := make(cty.Path, len(p)+1)
+	copy(q, p)
+	q[len(p)] = s
+	return q
+}
+
+func c19BuiltPathsCase(ctx *Ctx, v cty.Value) {
+	wrapN := ctx.R.Intn(9)
+	root := d19Wrap(ctx, v, wrapN)
+	vw, lit := encVal(root), root.GoString()
+	glit := lit + " ; the path of every member built by extending its parent's path value with GetAttr/Index/IndexInt/IndexString, siblings from the one base, all kept"
+
+	// (1) the tree of members, every path derived from its parent's path value
+	var nodes []d19Built
+	var prog []string
+	var derive func(at int)
+	derive = func(at int) {
+		n := nodes[at]
+		kids := c19Kids(n.v)
+		raw, _ := n.v.Unmark()
+		isSet := raw.IsKnown() && !raw.IsNull() && raw.Type().IsSetType()
+		first := len(nodes)
+		for _, k := range kids { // all siblings from the one base value, before going deeper
+			p, instr := d19Extend(ctx, n.p, n.reg, k.step)
+			prog = append(prog, instr)
+			nodes = append(nodes, d19Built{p: p, ind: d19Own(n.ind, k.step), v: k.v, anc: marksUnion(n.anc, n.v.Marks()),
+				setStep: n.setStep || isSet, reg: len(prog)})
+		}
+		for i := range kids {
+			derive(first + i)
+		}
+	}
+	nodes = append(nodes, d19Built{p: nil, ind: cty.Path{}, v: root, anc: cty.ValueMarks{}, reg: 0})
+	derive(0)
+	info := map[string]d19Built{}
+	for _, n := range nodes {
+		if _, dup := info[encPath(n.ind)]; !dup {
+			info[encPath(n.ind)] = n
+		}
+	}
+	outs := make([]string, len(nodes))
+	for i, n := range nodes {
+		outs[i] = encPath(n.p)
+	}
+	ctx.Add("path.build", "("+strings.Join(outs, " ")+")", prog...)
+	ctx.Tag(fmt.Sprintf("built:wrap%d", wrapN))
+	maxLen := 0
+	for _, n := range nodes {
+		if len(n.ind) > maxLen {
+			maxLen = len(n.ind)
+		}
+	}
+	ctx.Tag(fmt.Sprintf("built:maxlen%d", maxLen))
+
+	// (2) a Walk callback that extends the path it is handed with the builders and keeps the results
+	kept := append([]d19Built(nil), nodes...)
+	try(func() {
+		cty.Walk(root, func(p cty.Path, x cty.Value) (bool, error) {
+			for _, k := range c19Kids(x) {
+				d, _ := d19Extend(ctx, p, 0, k.step)
+				ind := d19Own(p, k.step) // p is intact while the callback runs
+				if n, ok := info[encPath(ind)]; ok {
+					kept = append(kept, d19Built{p: d, ind: ind, v: n.v, anc: n.anc, setStep: n.setStep})
+				}
+			}
+			return true, nil
+		})
+	})
+	ctx.Eval("built "+vw, len(kept) > 1)
+
+	// (3) judged only now, with every built path still alive
+	var plain []d19Built
+	for _, n := range kept {
+		if n.setStep {
+			continue
+		}
+		plain = append(plain, n)
+		pk := encPath(n.ind)
+		var got cty.Value
+		var err error
+		pan, _ := try(func() { got, err = n.p.Apply(root) })
+		if pan || err != nil {
+			ctx.Fail(Failure{Site: "walk-lead-back", Sig: "built-path-apply-failed", What: "the path built for a member by extending its parent's path does not apply to the root", Input: vw + " " + pk, GoLit: glit + " ; member at " + pathLit(n.ind), Outcome: encPath(n.p)})
+			continue
+		}
+		gu, _ := got.Unmark()
+		nu, _ := n.v.Unmark()
+		if !gu.RawEquals(nu) {
+			ctx.Fail(Failure{Site: "walk-lead-back", Sig: "built-path-other-member", What: "the path built for a member by extending its parent's path leads to a different member once its siblings' paths have been built", Input: vw + " " + pk, GoLit: glit + " ; member at " + pathLit(n.ind), Outcome: "path is now " + encPath(n.p) + " -> " + encVal(got)})
+		} else if !got.Marks().Equal(marksUnion(n.anc, n.v.Marks())) {
+			ctx.Fail(Failure{Site: "walk-lead-back", Sig: "built-path-marks", What: "marks reached through a built path are not those of the member and its ancestors", Input: vw + " " + pk, GoLit: glit + " ; member at " + pathLit(n.ind), Outcome: encVal(got)})
+		}
+		if !n.p.Equals(n.ind) || !n.ind.HasPrefix(n.p) {
+			ctx.Fail(Failure{Site: "path-equals", Sig: "built-path-not-itself", What: "a built path is not Equals to the same steps in a slice of its own", Input: pk, GoLit: glit + " ; member at " + pathLit(n.ind), Outcome: encPath(n.p)})
+		}
+	}
+	// Equals only to itself: siblings and random pairs
+	pairs := 0
+	for i := 0; i < len(plain) && pairs < 400; i++ {
+		for _, j := range []int{i + 1, i + 2, ctx.R.Intn(len(plain))} {
+			if j >= len(plain) || j == i {
+				continue
+			}
+			pairs++
+			same := encPath(plain[i].ind) == encPath(plain[j].ind)
+			var eq bool
+			if pan, _ := try(func() { eq = plain[i].p.Equals(plain[j].p) }); pan || eq != same {
+				ctx.Fail(Failure{Site: "path-equals", Sig: "built-paths-equal", What: "paths built for two different members are Equals (or one built path is not Equals to itself)", Input: encPath(plain[i].ind) + " " + encPath(plain[j].ind), GoLit: glit + " ; members at " + pathLit(plain[i].ind) + " and " + pathLit(plain[j].ind), Outcome: encPath(plain[i].p) + " " + encPath(plain[j].p)})
+			}
+		}
+	}
+	// one PathSet of them all
+	want := map[string]bool{}
+	var ps []cty.Path
+	for _, n := range plain {
+		want[encPath(n.ind)] = true
+		ps = append(ps, n.p)
+	}
+	if pan, _ := try(func() {
+		s := cty.NewPathSet(ps...)
+		l := s.List()
+		ok := len(l) == len(want)
+		for _, n := range plain {
+			if !s.Has(n.ind) {
+				ok = false
+			}
+		}
+		if !ok {
+			ctx.Fail(Failure{Site: "pathset-members", Sig: "built-paths", What: fmt.Sprintf("a PathSet of the built paths of %d different members has %d members / lacks one of them", len(want), len(l)), Input: vw, GoLit: glit, Outcome: encPaths(l)})
+		}
+	}); pan {
+		ctx.Fail(Failure{Site: "pathset-no-panic", Sig: "built-paths", What: "a PathSet of built paths panicked", Input: vw, GoLit: glit, Outcome: "panic"})
+	}
+	// marks re-applied through the built paths
+	var pvm []cty.PathValueMarks
+	for _, n := range nodes {
+		if !n.setStep && len(n.v.Marks()) > 0 {
+			pvm = append(pvm, cty.PathValueMarks{Path: n.p, Marks: n.v.Marks()})
+		}
+	}
+	if pan, _ := try(func() {
+		u, _ := root.UnmarkDeep()
+		back := u.MarkWithPaths(pvm)
+		if !back.RawEquals(root) {
+			ctx.Fail(Failure{Site: "unmark-remark", Sig: "built-paths-not-restored", What: "MarkWithPaths with the built paths of the marked members does not restore the value", Input: vw, GoLit: glit, Outcome: encVal(back)})
+		}
+	}); pan {
+		ctx.Fail(Failure{Site: "unmark-remark", Sig: "built-paths-panic", What: "MarkWithPaths with built paths panicked", Input: vw, GoLit: glit, Outcome: "panic"})
 	}
 }
